@@ -20,6 +20,7 @@ func runC08(c *core.Ctx) core.Meta {
 	c.Load(kernelsPkg, driverPkg, emuPkg, cuPkg)
 	c.BuildSSA()
 	prov := core.NewLocalProv(c)
+	prov.InlinePure = true // a counting formula moved into an expression helper keeps its provenance
 	dim := regexp.MustCompile(`GridSize([XYZ])`)
 
 	// ---------------- R08.1 one work-group counting formula ----------------
@@ -50,15 +51,30 @@ func runC08(c *core.Ctx) core.Meta {
 					okForm := false
 					if formA {
 						// the quotient must be incremented by 1
-						if q.Referrers() != nil {
-							for _, r := range *q.Referrers() {
-								if add, ok := r.(*ssa.BinOp); ok && add.Op == token.ADD {
-									if k, isC := core.ConstInt(add.Y); isC && k == 1 {
-										okForm = true
+						var uses func(v ssa.Value, d int)
+						uses = func(v ssa.Value, d int) {
+							if v.Referrers() == nil || d > 3 {
+								return
+							}
+							for _, r := range *v.Referrers() {
+								switch t := r.(type) {
+								case *ssa.BinOp:
+									if t.Op == token.ADD {
+										if k, isC := core.ConstInt(t.Y); isC && k == 1 {
+											okForm = true
+										}
+										if k, isC := core.ConstInt(t.X); isC && k == 1 {
+											okForm = true
+										}
 									}
+								case *ssa.Convert:
+									uses(t, d+1) // int((g-1)/w) + 1
+								case *ssa.ChangeType:
+									uses(t, d+1)
 								}
 							}
 						}
+						uses(q, 0)
 					}
 					if formB {
 						okForm = true
